@@ -571,6 +571,20 @@ func buildJSONReader(p *Program, o *JSONObject) {
 	}
 	for i := 0; i < len(list); i++ {
 		st := list[i]
+		// a property written as its own block with a guard clause:
+		//   { raw, ok := m[K]; if !ok { return missing }; decode; delete(m, K) }
+		// is the same statement as `if raw, ok := m[K]; ok { decode; delete } else { return missing }`
+		if blk, isBlk := st.(*ast.BlockStmt); isBlk {
+			if v := mergeCommaOk(info, normGuards(info, blk.List)); len(v) == 1 {
+				if ifs, isIf := v[0].(*ast.IfStmt); isIf && ifs.Init != nil {
+					if as, isAs := ifs.Init.(*ast.AssignStmt); isAs && len(as.Rhs) == 1 {
+						if ix, isIx := as.Rhs[0].(*ast.IndexExpr); isIx && c.isObj(ix.X, m) {
+							st = ifs
+						}
+					}
+				}
+			}
+		}
 		switch s := st.(type) {
 		case *ast.DeclStmt:
 			continue // var err error
